@@ -16,9 +16,12 @@ against in C01/C02/C03 -- so simulator == reference == netlist == RTLIL per cons
           switch reconstruction from Match cells, $dff/$adff, sigspec chunking, hierarchy and ports
  hier     the same for designs split over submodules (signal driven in one module, used in ancestors, siblings and
           cousins; three levels; the same assignment target under two different conditions)
+ design   whole-design one-step equivalence (checks/c04_designs.py): simulator code, netlist and RTLIL of ONE prepared
+          Design agree on every signal now and after every clock event, from EVERY common state and input (counter,
+          FSM, inserters, synchronisers, crc.Processor, Memory, SyncFIFO/-Buffered, hierarchies; thorough: AsyncFIFO)
 Templates: every C01 expression template, every C02 assignment-target template and control-flow program, the C03
-domain flavours, hierarchical designs.  Not decided: designs outside these templates (net-flow/port inference for
-arbitrary module trees), memories and instances at RTLIL level beyond C11's parameter lemmas.
+domain flavours, hierarchical designs.  Not decided: designs outside these templates and listed designs (net-flow/port
+inference for arbitrary module trees); instances are opaque.  Memories / I/O buffers: C11 behaviour, C18 real-port.
 """
 from pyvc.explore import Exploration
 from pyvc.sym import SInt, to_sint, And, Or, Not, Implies, ite
@@ -59,7 +62,7 @@ def functions():
                      "NetlistEmitter.emit_drivers", "NetlistEmitter.emit_match", "NetlistEmitter.extend", "NetlistEmitter.emit_undriven",
                      "NetlistDriver.emit_value", "_compute_net_flows", "_compute_ports", "build_netlist")]
     out += [source.describe("amaranth/back/rtlil.py", q, arith="RTLIL text evaluated symbolically", bound="templates enumerated")
-            for q in ("ModuleEmitter.emit_operator", "ModuleEmitter.shorten_operand", "ModuleEmitter.emit_part", "ModuleEmitter.emit_flip_flop",
+            for q in ("convert_fragment", "ModuleEmitter.emit_operator", "ModuleEmitter.shorten_operand", "ModuleEmitter.emit_part", "ModuleEmitter.emit_flip_flop",
                       "ModuleEmitter.emit_assignment_list", "ModuleEmitter.emit_match", "ModuleEmitter.sigspec", "ModuleEmitter.emit_connects",
                       "ModuleEmitter.emit_submodules", "ModuleEmitter.emit_port_wires", "_const")]
     return out
@@ -80,11 +83,13 @@ def tasks(tier):
     out = [("chunk", tuple(ts[i:i + chunk])) for i in range(0, len(ts), chunk)]
     out += [("hier", k) for k in range(len(HIER))]
     out += [("ff", e, kind) for e in ("pos", "neg") for kind in ("noreset", "sync", "async")]
+    from . import c04_designs
+    out += [("design", tier, k) for k in range(len(c04_designs.designs(tier)))]
     return out
 
 
 def canaries(tier):
-    return [("canary-nir",), ("canary-rtlil",)]
+    return [("canary-nir",), ("canary-rtlil",), ("canary-design-nir",), ("canary-design-rtlil",)]
 
 
 # ------------------------------------------------------------------------------------------------
@@ -496,6 +501,12 @@ def run_task(task):
         return runner.guarded(f"hier{task[1]}", unit_hier, task[1])
     if k == "ff":
         return unit_ff(task[1], task[2])
+    if k == "design":
+        from . import c04_designs
+        return c04_designs.run_design(task[1], task[2])
+    if k in ("canary-design-nir", "canary-design-rtlil"):
+        from . import c04_designs
+        return c04_designs.run_design("quick", 7, break_n=(k == "canary-design-nir"), break_r=(k == "canary-design-rtlil"))
     if k in ("canary-nir", "canary-rtlil"):
         from amaranth.hdl import Signal, Module
         a, b, o = Signal(3, name="a"), Signal(3, name="b"), Signal(4, name="o")
